@@ -281,7 +281,7 @@ def wide_ddl_phase(chk):
     once the index B-tree has more than one leaf, and after a reopen"""
     import widetable
     thorough = chk.tier == "thorough"
-    dh = widetable.walks(chk, 30 if thorough else 1, 14 if thorough else 8, n=700, ddl=True, cap=600 if thorough else 60)
+    dh = widetable.walks(chk, 80 if thorough else 20, 16 if thorough else 10, n=700, ddl=True, cap=600 if thorough else 60)
     probs, st = widetable.judge(dh, widetable.execute(dh, n=700, ddl=True), n=700)
     late = sum(1 for h in dh for x in h if x["op"]["k"] == "create_index" and x["probes"]["count"] >= 100)
     if not late:
